@@ -455,7 +455,7 @@ func (u *Unit) havocAll(st *State, fr *Frame) {
 	// even arbitrary user code is assumed not to rewrite the structures declared
 	// `assume_stable` (requests, responses, service descriptors)
 	pred := func(addr Term) Term { return And(inner(addr), u.notStable(addr)) }
-	st.AllHavocs = append(st.AllHavocs, pred) // applied lazily per key (getMem)
+	st.AllHavocs = append(st.AllHavocs, u.newAllHavoc(pred)) // applied lazily per key (getMem)
 	st.Clock = u.fresh
 }
 
@@ -465,6 +465,36 @@ func (u *Unit) havocKey(st *State, key string, modified func(addr Term) Term) {
 	old := st.Mem[key] // callers bring the key up to date first (getMem / curMem)
 	nm := u.Fresh("M_"+shorten(sanitize(key), 40), ArrSort(SV, so))
 	st.Derivs[nm.A] = &MemDeriv{Old: old, Elem: so, Kind: "frame", Modified: modified}
+	st.Mem[key] = nm
+}
+
+type allHavoc struct {
+	id   int
+	pred func(addr Term) Term
+}
+
+func (u *Unit) newAllHavoc(pred func(addr Term) Term) allHavoc {
+	u.havocSeq++
+	return allHavoc{id: u.havocSeq, pred: pred}
+}
+
+// applyAllHavoc applies a whole-heap havoc to one key. Clones of a state apply
+// the same pending havoc lazily and independently: they must end up with the
+// same memory constant, so the result is memoised per (memory before, havoc).
+func (u *Unit) applyAllHavoc(st *State, key string, h allHavoc) {
+	st.Clock = u.fresh
+	so := st.MemSort[key]
+	old := st.Mem[key]
+	mk := fmt.Sprintf("%d#%s", h.id, old.String())
+	if u.havocMemo == nil {
+		u.havocMemo = map[string]Term{}
+	}
+	nm, ok := u.havocMemo[mk]
+	if !ok {
+		nm = u.Fresh("M_"+shorten(sanitize(key), 40), ArrSort(SV, so))
+		u.havocMemo[mk] = nm
+	}
+	st.Derivs[nm.A] = &MemDeriv{Old: old, Elem: so, Kind: "frame", Modified: h.pred}
 	st.Mem[key] = nm
 }
 
@@ -830,7 +860,7 @@ func (u *Unit) applyContract(st *State, fr *Frame, site ssa.Instruction, callee 
 	*clockAfter = 1 << 60
 	if returnsRefs {
 		clock := u.fresh
-		st.AllHavocs = append(st.AllHavocs, func(addr Term) Term {
+		st.AllHavocs = append(st.AllHavocs, u.newAllHavoc(func(addr Term) Term {
 			root := addrRoot(addr)
 			if root.Op == "" {
 				if strings.HasPrefix(root.A, "p_") || strings.HasPrefix(root.A, "fv_") || strings.HasPrefix(root.A, "glob!") {
@@ -850,7 +880,7 @@ func (u *Unit) applyContract(st *State, fr *Frame, site ssa.Instruction, callee 
 			}
 			id := App("aid", SInt, App("aobj", SV, addr))
 			return And(Gt(id, IntLit(int64(clock))), Le(id, IntLit(int64(*clockAfter))))
-		})
+		}))
 	}
 	var res []Term
 	for i, rt := range rts {
@@ -879,6 +909,23 @@ func (u *Unit) applyContract(st *State, fr *Frame, site ssa.Instruction, callee 
 			continue
 		}
 		st.Assume(g)
+	}
+	// pointwise (forall) postconditions are remembered against the state right
+	// after the call and instantiated at indexes used later (u.instantiateAt)
+	var frozen *State
+	for i, cl := range ct.Clauses {
+		if cl.Kind != "ensures" || mentionsCallLog(cl.Expr) || !hasForall(cl.Expr) {
+			continue
+		}
+		if frozen == nil {
+			frozen = st.Clone()
+		}
+		e2 := *post
+		e2.st = frozen
+		e2.keepUniversals = true
+		e2.target = st
+		e2.key = fmt.Sprintf("%s.ensU%d", name, i)
+		e2.EvalBool(cl.Expr)
 	}
 	if trusted {
 		u.assumptions["assumed contract: "+ct.Target] = true
@@ -1143,7 +1190,7 @@ func (u *Unit) applyModifies(st *State, fr *Frame, site ssa.Instruction, ct *Con
 		if keys == nil {
 			locals := u.notInLocals(u.unleakedLocals(fr))
 			inner := t.pred
-			st.AllHavocs = append(st.AllHavocs, func(addr Term) Term { return And(locals(addr), inner(addr)) })
+			st.AllHavocs = append(st.AllHavocs, u.newAllHavoc(func(addr Term) Term { return And(locals(addr), inner(addr)) }))
 			continue
 		}
 		for _, k := range keys {
@@ -1229,7 +1276,7 @@ func (u *Unit) mapWriteChecks(st *State, fr *Frame, in ssa.Instruction, m Term, 
 		return
 	}
 	key := "maphas:" + typeKey(mt)
-	alts := []Term{Gt(App("aid", SInt, m), IntLit(int64(u.entryFresh)))}
+	alts := []Term{Gt(App("aid", SInt, App("aobj", SV, m)), IntLit(int64(u.entryFresh)))}
 	for _, tg := range targets {
 		for _, k := range tg.keys {
 			if k == key {
@@ -1841,4 +1888,49 @@ func (p *Prog) captureImmutable(fv *ssa.FreeVar) bool {
 	}
 	p.capImm[fv] = res
 	return res
+}
+
+func hasForall(x Expr) bool {
+	switch x := x.(type) {
+	case EForall:
+		return true
+	case EBinary:
+		return hasForall(x.X) || hasForall(x.Y)
+	case EUnary:
+		return hasForall(x.X)
+	case ECall:
+		for _, a := range x.Args {
+			if hasForall(a) {
+				return true
+			}
+		}
+	}
+	return false
+}
+
+// instantiateAt: retained integer universals (assumed pointwise facts) at an
+// index term the program uses.
+func (u *Unit) instantiateAt(st *State, idx Term) {
+	if len(st.Universals) == 0 || idx.Sort != SInt {
+		return
+	}
+	key := idx.String()
+	for i, un := range st.Universals {
+		if un.sort != SInt {
+			continue
+		}
+		k := fmt.Sprintf("%d@%s", i, key)
+		if st.UnivDone[k] {
+			continue
+		}
+		nd := make(map[string]bool, len(st.UnivDone)+1)
+		for a, b := range st.UnivDone {
+			nd[a] = b
+		}
+		nd[k] = true
+		st.UnivDone = nd
+		if f, good := un.inst(idx); good {
+			st.Assume(f)
+		}
+	}
 }
